@@ -283,6 +283,39 @@ pub mod simd {
     { unimplemented!() }
 
     #[verifier::external_body]
+    pub fn _mm_or_si128(a: __m128i, b: __m128i) -> (r: __m128i)
+        ensures forall|n: int| 0 <= n < 16 ==> #[trigger] r.b@[n] == a.b@[n] | b.b@[n]
+    { unimplemented!() }
+    #[verifier::external_body]
+    pub fn _mm_andnot_si128(a: __m128i, b: __m128i) -> (r: __m128i)
+        ensures forall|n: int| 0 <= n < 16 ==> #[trigger] r.b@[n] == (!a.b@[n]) & b.b@[n]
+    { unimplemented!() }
+    #[verifier::external_body]
+    pub fn _mm_setzero_si128() -> (r: __m128i)
+        ensures forall|n: int| 0 <= n < 16 ==> #[trigger] r.b@[n] == 0u8
+    { unimplemented!() }
+    // PTEST: 1 iff (a AND b) is all zero
+    #[verifier::external_body]
+    pub fn _mm_testz_si128(a: __m128i, b: __m128i) -> (r: i32)
+        ensures (r == 1) == (forall|n: int| 0 <= n < 16 ==> #[trigger] a.b@[n] & b.b@[n] == 0u8), r == 0 || r == 1
+    { unimplemented!() }
+    #[verifier::external_body]
+    pub fn _mm256_or_si256(a: __m256i, b: __m256i) -> (r: __m256i)
+        ensures forall|n: int| 0 <= n < 32 ==> #[trigger] r.b@[n] == a.b@[n] | b.b@[n]
+    { unimplemented!() }
+    #[verifier::external_body]
+    pub fn _mm256_andnot_si256(a: __m256i, b: __m256i) -> (r: __m256i)
+        ensures forall|n: int| 0 <= n < 32 ==> #[trigger] r.b@[n] == (!a.b@[n]) & b.b@[n]
+    { unimplemented!() }
+    #[verifier::external_body]
+    pub fn _mm256_setzero_si256() -> (r: __m256i)
+        ensures forall|n: int| 0 <= n < 32 ==> #[trigger] r.b@[n] == 0u8
+    { unimplemented!() }
+    #[verifier::external_body]
+    pub fn _mm256_testz_si256(a: __m256i, b: __m256i) -> (r: i32)
+        ensures (r == 1) == (forall|n: int| 0 <= n < 32 ==> #[trigger] a.b@[n] & b.b@[n] == 0u8), r == 0 || r == 1
+    { unimplemented!() }
+    #[verifier::external_body]
     pub fn _mm256_broadcastsi128_si256(a: __m128i) -> (r: __m256i)
         ensures forall|n: int| 0 <= n < 32 ==> #[trigger] r.b@[n] == a.b@[n % 16]
     { unimplemented!() }
